@@ -32,7 +32,6 @@ Qed.
 Definition lingo_plain_call (nm : string) : bool := negb (String.eqb nm "sound") && negb (mem_str (lower nm) LIST_FUNCTIONS).
 Fixpoint text_ok (en : env) (e : expr) {struct e} : Prop :=
   match e with
-  | ESym n => mem_str (nm en n) CONST_KNOWN_SYMBOLS = false
   | ELoc i => match nth i (e_locals en) (Leaf KLocal "" 0 true) with Leaf KLocal _ _ _ => True | _ => False end
   | EBin _ x y => text_ok en x /\ text_ok en y
   | ENeg x | ENot x => text_ok en x
@@ -63,6 +62,9 @@ Proof.
   unfold gv_sym_name. destruct (rev ops) as [|x r]; [reflexivity|]. destruct x; try reflexivity. destruct k; try reflexivity.
   rewrite H. reflexivity.
 Qed.
+
+Lemma go_bare_paren nm ops : go_bare nm true ops = None.
+Proof. unfold go_bare. cbn [negb]. rewrite andb_false_r. reflexivity. Qed.
 
 Lemma list_strs en l : PTArgs en l -> text_ok_args en l -> forall pc ind,
   rev (map (fun x => gen_lingo x ind) (rev (fst (reify_args en pc l)))) = map (render en) (map (pp_tok en) l).
@@ -134,7 +136,7 @@ Proof.
   apply (expr_ind2 (PT en) (PTArgs en)); unfold PT.
   - intros n _ pc ind. cbn [reify_e pp_tok]. norm_render. reflexivity.
   - intros k _ pc ind. cbn [reify_e pp_tok]. norm_render. destruct (nth k (e_consts en) (CInt 0)); reflexivity.
-  - intros n Hok pc ind. cbn [reify_e pp_tok text_ok] in *. norm_render. cbn [gen_lingo gen_lingo_sp]. rewrite Hok. reflexivity.
+  - intros n _ pc ind. cbn [reify_e pp_tok]. norm_render. reflexivity.
   - intros i Hok pc ind. cbn [reify_e pp_tok text_ok] in *. norm_render.
     destruct (nth i (e_locals en) (Leaf KLocal "" 0 true)); try contradiction. destruct k; try contradiction. reflexivity.
   - intros i _ pc ind. cbn [reify_e pp_tok]. norm_render. reflexivity.
@@ -158,7 +160,7 @@ Proof.
     + destruct (rev ns) as [|n0 nr] eqn:En.
       { exfalso. apply (f_equal (@length node)) in En. rewrite rev_length in En.
         pose proof (reify_args_len en (x :: l') pc) as HL. rewrite Er in HL. cbn [fst length] in *. lia. }
-      rewrite Hs. cbn [negb andb]. norm_render. rewrite render_sep. repeat rewrite sappend_assoc. rewrite ?append_nil_r. reflexivity.
+      rewrite Hs. cbn [negb andb]. rewrite go_bare_paren. norm_render. rewrite render_sep. repeat rewrite sappend_assoc. rewrite ?append_nil_r. reflexivity.
   - (* local call *) intros f l IHl [Hp Hl] pc ind. rewrite text_ok_args_eq in Hl. cbn [reify_e pp_tok]. rewrite reify_args_eq.
     destruct (reify_args en pc l) as [ns pa] eqn:Er. unfold gen_lingo in *. cbn [gen_lingo_sp].
     rewrite (gv_none_l _ _ Hp). cbn [set_last].
@@ -169,7 +171,7 @@ Proof.
     + destruct (rev ns) as [|n0 nr] eqn:En.
       { exfalso. apply (f_equal (@length node)) in En. rewrite rev_length in En.
         pose proof (reify_args_len en (x :: l') pc) as HL. rewrite Er in HL. cbn [fst length] in *. lia. }
-      rewrite Hs. cbn [negb andb]. norm_render. rewrite render_sep. repeat rewrite sappend_assoc. rewrite ?append_nil_r. reflexivity.
+      rewrite Hs. cbn [negb andb]. rewrite go_bare_paren. norm_render. rewrite render_sep. repeat rewrite sappend_assoc. rewrite ?append_nil_r. reflexivity.
   - (* list *) intros l IHl Hl pc ind. cbn [text_ok] in Hl. rewrite text_ok_args_eq in Hl. cbn [reify_e pp_tok]. rewrite reify_args_eq.
     destruct (reify_args en pc l) as [ns pa] eqn:Er. unfold gen_lingo in *. cbn [gen_lingo_sp].
     pose proof (list_strs en l IHl Hl pc ind) as E. unfold gen_lingo in E. rewrite Er in E. cbn [fst] in E. rewrite E.
@@ -225,8 +227,9 @@ Definition text_ok_s (en : env) (props : list string) (s : stmt) : Prop :=
     | TPar i => leaf_like KParam (nth i (e_params en) (Leaf KParam "" 0 true))
     | _ => True
     end
-  | SCallS f args => lingo_plain_call (nm en f) = true /\ text_ok_args en args
-  | SLCallS f args => lingo_plain_call (nth f (e_lfuncs en) "") = true /\ text_ok_args en args
+  (* go is a family of its own: go loop / go next / go previous write their symbol bare *)
+  | SCallS f args => (lingo_plain_call (nm en f) = true /\ String.eqb (nm en f) "go" = false) /\ text_ok_args en args
+  | SLCallS f args => (lingo_plain_call (nth f (e_lfuncs en) "") = true /\ String.eqb (nth f (e_lfuncs en) "") "go" = false) /\ text_ok_args en args
   end.
 
 Lemma args_text en l : text_ok_args en l -> forall pc ind,
@@ -254,7 +257,7 @@ Proof.
       - destruct (mem_str (nm en n) props); [reflexivity|]. cbn [orb gen_lingo_sp].
         destruct (mem_str (nm en n) VARIABLE_KNOWN_SYMBOLS); reflexivity. }
     rewrite Htt, Hf. cbn [andb]. repeat rewrite sappend_assoc. reflexivity.
-  - destruct Hok as [Hp Hl]. cbn [reify_s stmt_text]. destruct (reify_args en pc args) as [ns pa] eqn:Er.
+  - destruct Hok as [[Hp Hgo] Hl]. cbn [reify_s stmt_text]. destruct (reify_args en pc args) as [ns pa] eqn:Er.
     unfold gen_lingo. cbn [gen_lingo_sp]. rewrite (gv_none_l _ _ Hp). cbn [set_last].
     pose proof (args_text en args Hl pc ind) as E. unfold gen_lingo in E. rewrite Er in E. cbn [fst] in E.
     rewrite map_rev, rev_involutive, E.
@@ -264,8 +267,8 @@ Proof.
     + destruct (rev ns) as [|n0 nr] eqn:En.
       { exfalso. apply (f_equal (@length node)) in En. rewrite rev_length in En.
         pose proof (reify_args_len en (x :: l') pc) as HL. rewrite Er in HL. cbn [fst length] in *. lia. }
-      rewrite Hs. cbn [negb andb]. repeat rewrite sappend_assoc. reflexivity.
-  - destruct Hok as [Hp Hl]. cbn [reify_s stmt_text]. destruct (reify_args en pc args) as [ns pa] eqn:Er.
+      rewrite Hs. cbn [negb andb]. unfold go_bare. rewrite Hgo. cbn [andb]. repeat rewrite sappend_assoc. reflexivity.
+  - destruct Hok as [[Hp Hgo] Hl]. cbn [reify_s stmt_text]. destruct (reify_args en pc args) as [ns pa] eqn:Er.
     unfold gen_lingo. cbn [gen_lingo_sp]. rewrite (gv_none_l _ _ Hp). cbn [set_last].
     pose proof (args_text en args Hl pc ind) as E. unfold gen_lingo in E. rewrite Er in E. cbn [fst] in E.
     rewrite map_rev, rev_involutive, E.
@@ -275,6 +278,6 @@ Proof.
     + destruct (rev ns) as [|n0 nr] eqn:En.
       { exfalso. apply (f_equal (@length node)) in En. rewrite rev_length in En.
         pose proof (reify_args_len en (x :: l') pc) as HL. rewrite Er in HL. cbn [fst length] in *. lia. }
-      rewrite Hs. cbn [negb andb]. repeat rewrite sappend_assoc. reflexivity.
+      rewrite Hs. cbn [negb andb]. unfold go_bare. rewrite Hgo. cbn [andb]. repeat rewrite sappend_assoc. reflexivity.
 Qed.
 Print Assumptions stmt_line.
